@@ -14,7 +14,7 @@ import sys
 import time
 
 VERIF = os.path.dirname(os.path.dirname(os.path.dirname(os.path.dirname(os.path.abspath(__file__)))))
-CACHE = os.path.join(VERIF, ".cache")
+CACHE = os.environ.get("VERIF_CACHE") or os.path.join(VERIF, ".cache")   # VERIF_CACHE: private cache for parallel scratch runs (self-test sweep)
 MIRX_DIR = os.path.join(VERIF, "engine", "mirx")
 MIRX_BIN = os.path.join(MIRX_DIR, "target", "debug", "mirx")
 
